@@ -39,6 +39,10 @@ impl State {
         self.jobs.values()
     }
 
+    pub fn get_jobs(&self) -> &Map<JobId, Job> {
+        &self.jobs
+    }
+
     pub fn add_worker(&mut self, worker: Worker) {
         let worker_id = worker.worker_id();
         assert!(self.workers.insert(worker_id, worker).is_none())
